@@ -628,13 +628,39 @@ func checkBidStrategy(p *core.Prog, r *core.Report, ds *core.Describer, rel stri
 				return
 			}
 			var relay, provider ssa.Value
-			for _, a := range g.Call.Args {
-				tn := typeName(a.Type())
-				switch {
-				case strings.HasSuffix(tn, "beaconblockproposer.RelayConfig"):
-					relay = a
-				case strings.HasSuffix(tn, "BuilderBidProvider"):
-					provider = a
+			pick := func(args []ssa.Value, outer func(ssa.Value) ssa.Value) {
+				var rl, pv ssa.Value
+				for _, a := range args {
+					tn := typeName(a.Type())
+					switch {
+					case strings.HasSuffix(tn, "beaconblockproposer.RelayConfig"):
+						rl = outer(a)
+					case strings.HasSuffix(tn, "BuilderBidProvider"):
+						pv = outer(a)
+					}
+				}
+				if rl != nil && pv != nil && relay == nil {
+					relay, provider = rl, pv
+				}
+			}
+			pick(g.Call.Args, func(v ssa.Value) ssa.Value { return v })
+			if mc, isLit := g.Call.Value.(*ssa.MakeClosure); isLit && relay == nil {
+				// the worker wrapped in a literal (`go func(relay …) { defer wg.Done(); s.builderBid(…, relay) }(relay)`):
+				// the call inside the literal, its parameters read as the arguments of the go statement
+				if fn, ok := mc.Fn.(*ssa.Function); ok {
+					outer := func(v ssa.Value) ssa.Value {
+						for i, prm := range fn.Params {
+							if ssa.Value(prm) == v && i < len(g.Call.Args) {
+								return g.Call.Args[i]
+							}
+						}
+						return v
+					}
+					core.EachInstr(fn, func(in2 ssa.Instruction) {
+						if c, ok := in2.(ssa.CallInstruction); ok {
+							pick(c.Common().Args, outer)
+						}
+					})
 				}
 			}
 			if relay == nil || provider == nil {
